@@ -51,9 +51,14 @@ CHECKS = {
  "C13": dict(level="exploration", sec="4 C13", tech="runtime monitoring: per-object hand-out counter compared with Metrics at every callback, hand-out and retain",
    text="Long single-pool histories; the harness's own per-object hand-out counter and last reported instants are compared with the Metrics seen by hooks, recycle, retain and Object::metrics().",
    note="Instants are real (std) instants; only ordering is checked."),
+ "C14": dict(level="exploration", sec="4 C14", engine="sync", tech="runtime monitoring: thread-identity and sequence stamps recorded by closures and by the wrapped value's destructor on a multi-thread tokio runtime; 'is blocking allowed here' probed with Handle::block_on",
+   text="Random histories of interact calls (completing, panicking, cancelled before the closure starts, cancelled while it is parked on a gate) followed by dropping the wrapper at a random moment on an async worker thread; constructor, closures and destructor record thread id, a global sequence number and whether tokio allows blocking on that thread; the destructor must run exactly once, off every thread that polls async tasks, after the end stamp of every closure that used the value.",
+   note="Runtime shutdown and dropping a wrapper outside a runtime are outside the property's quantifier."),
+ "C15": dict(level="exploration", sec="4 C15", engine="sync", tech="runtime monitoring: per-connection identity marker (PRAGMA user_version / serial number) read at every hand-out and compared with the set of poisoned / broken connections; capacity probe",
+   text="Random histories of gets, interactions (ok / panic / cancelled), 'broken' markings (open transaction, has_broken, is_valid, scripted check function, failing custom query) and returns over real sqlite, r2d2 (scripted ManageConnection) and diesel-sqlite pools; every connection carries an identity marker that is read at every hand-out; at the end the full capacity must be served with healthy connections.",
+   note="sqlite is the system libsqlite3 with :memory: databases; mysql/postgres diesel backends are not driven."),
 }
 PENDING = {
- "C14": "not built yet in this revision", "C15": "not built yet in this revision",
  "C16": "not built yet in this revision", "C17": "not built yet in this revision",
  "C18": "not built yet in this revision", "C19": "not built yet in this revision",
 }
